@@ -124,8 +124,11 @@ func (c *NoiseConn) Read(b []byte) (n int, err error) {
 	// of our AEAD connection, and the stream abstraction of TCP, we
 	// maintain an intermediate read buffer. If this buffer becomes
 	// depleted, then we read the next record, and feed it into the
-	// buffer. Otherwise, we read directly from the buffer.
-	if c.readBuf.Len() == 0 {
+	// buffer. Otherwise, we read directly from the buffer. An empty record
+	// carries no stream data: we move on to the next one rather than
+	// letting the empty buffer report io.EOF on a stream that is still
+	// open.
+	for c.readBuf.Len() == 0 {
 		plaintext, err := c.noise.ReadMessage(c.conn)
 		if err != nil {
 			return 0, err
